@@ -51,9 +51,13 @@ structure ProgOK (p : MapIn) : Prop where
   starts : StartsOK p.starts p.ops.length
   /-- a captured signal is a line written by a row -/
   ppo : ∀ j s, (j, s) ∈ p.ppoSrcs → s < p.ix.zero ∧ ∃ o ∈ p.ops, o.out = s
-  /-- branch and stem are lines, a stem is not a branch, no row writes a branch -/
-  stem : ∀ l t, p.stems.getD l none = some t →
-    l < p.ix.zero ∧ t < p.ix.zero ∧ p.stems.getD t none = none ∧ ∀ o ∈ p.ops, o.out ≠ l
+  /-- a branch is a line and no row writes it -/
+  branch : ∀ l t, p.stems.getD l none = some t → l < p.ix.zero ∧ ∀ o ∈ p.ops, o.out ≠ l
+  /-- the stem of an operand is not itself a branch -/
+  stem_opnd : ∀ o ∈ p.ops, ∀ i ∈ o.ins, ∀ t, p.stems.getD i none = some t → p.stems.getD t none = none
+  /-- the stem of a captured line is not itself a branch -/
+  stem_cap : ∀ n i l, (n, i) ∈ p.net.sNodes.zipIdx → (p.net.node n).inPin 0 = some l →
+    ∀ t, p.stems.getD l none = some t → p.stems.getD t none = none
   /-- a captured line is a line -/
   cap_lt : ∀ n i l, (n, i) ∈ p.net.sNodes.zipIdx → (p.net.node n).inPin 0 = some l → l < p.ix.zero
 
